@@ -208,8 +208,43 @@ def find_target(node: Node) -> Node | None:
             node = node.child_by_field_name("expression")
         elif t == "apply_expression":
             node = node.child_by_field_name("argument")
+        elif t == "variable_expression":
+            node = lexical_set_binding(node)
         else:
             return None
+    return None
+
+
+def lexical_set_binding(ref: Node) -> Node | None:
+    """`ref` is a name in body / argument position: the value expression of the binding that defines
+    it under Nix lexical scoping (innermost enclosing `let` or `rec { }` that binds the name with a
+    plain binding; a lambda formal of that name hides outer binders), or None."""
+    name = ref.text.decode()
+    node = ref
+    while node.parent is not None:
+        par = node.parent
+        if par.type in ("let_expression", "rec_attrset_expression"):
+            bs = [c for c in par.named_children if c.type == "binding_set"]
+            for b in (bs[0].named_children if bs else []):
+                if b.type == "binding":
+                    ap = b.child_by_field_name("attrpath")
+                    names = [attr_name(a) for a in ap.named_children if a.type != "comment"]
+                    if names == [name]:
+                        return b.child_by_field_name("expression")
+                elif b.type in ("inherit", "inherit_from"):
+                    attrs = b.child_by_field_name("attrs")
+                    if any(attr_name(a) == name for a in (attrs.named_children if attrs else []) if a.type != "comment"):
+                        return None
+        elif par.type == "function_expression":
+            formals = par.child_by_field_name("formals")
+            univ = par.child_by_field_name("universal")
+            fnames = [f.child_by_field_name("name").text.decode() for f in (formals.named_children if formals else [])
+                      if f.type == "formal" and f.child_by_field_name("name") is not None]
+            if univ is not None:
+                fnames.append(univ.text.decode())
+            if name in fnames:
+                return None
+        node = par
     return None
 
 
